@@ -32,7 +32,7 @@ def plan(tier, seed):
     items = [dict(date=str(d), k=k, chunk=c, chunks=chunks, seed=seed, tier=tier)
              for d in dates for k in range(pops) for c in range(chunks)]
     # historical dates: the part of the default targets that is computable there
-    hist = [datetime.date(2003, 7, 1), datetime.date(2009, 7, 1), datetime.date(2012, 7, 1)] if tier == "quick" else \
+    hist = [datetime.date(2003, 7, 1), datetime.date(2005, 7, 1), datetime.date(2009, 7, 1), datetime.date(2012, 7, 1)] if tier == "quick" else \
         [datetime.date(y, m, 1) for y in range(1996, 2015) for m in (1, 7)]
     items += [dict(date=str(d), k=0, chunk=c, chunks=4, seed=seed, tier=tier, historical=True) for d in hist for c in range(4)]
     # shared mutable objects between parameter groups, at every change date since 1984
